@@ -61,7 +61,16 @@ func HarnessC07Component() {
 	fail := false
 	vfsWriteFile("templates/components/pair.tw", "{{ a }}/{{ t }}")
 	vfsWriteFile("templates/components/card.v2.tw", "<v2>{{ t }}</v2>")
-	switch vChoice("page", 7) {
+	clash := false
+	switch vChoice("page", 8) {
+	case 7: // an argument named like a surrounding variable of another type: bound (or refused), never silently dropped
+		clash = true
+		page = "{{ t = 1 }}A@component(\"~comp\", {t: x})B"
+		if vChoice("outer-from-data", 2) == 1 {
+			page = "A@component(\"~comp\", {t: x})B"
+			data["t"] = 1
+		}
+		want = "A<b>" + x + "</b>[|]B"
 	case 6: // a component whose file name contains a dot, by alias and by full name
 		page = "@component(\"~card.v2\", {t: x})|@component(\"components/card.v2\", {t: y})"
 		want = "<v2>" + x + "</v2>|<v2>" + y + "</v2>"
@@ -100,6 +109,10 @@ func HarnessC07Component() {
 	vAssert(loadErr == nil && tpl != nil, "valid-component-page-loads")
 	out, err := tpl.String("page", data)
 	vCover("rendered")
+	if clash {
+		vAssert(err != nil || vEqStr(out, want), "argument-is-bound-or-refused-never-dropped")
+		return
+	}
 	vAssert(err == nil, "page-renders")
 	if want != "" {
 		vAssert(vEqStr(out, want), "each-use-shows-its-own-arguments-and-slot-bodies")
